@@ -630,3 +630,265 @@ Example asker_named_refuted :
   tanswer1_asker_named ex_prov_rs (ex_ireq (PS "sid-0") (PS "rs_open")) = TSession (mkSess 0 (PS "diana") (PS "rs_open")) /\
   tanswer1_asker_named ex_prov_rs (ex_ireq (PS "sid-1") (PS "rs_aud")) = TSession (mkSess 1 (PS "babs") (PS "rs_aud")).
 Proof. vm_compute. repeat split; reflexivity. Qed.
+
+(* ================================================================== WHERE THE HANDLER KEYS COME FROM (Model/TokenFmt.v ksrc ...)
+   Provider instances whose keys the library generates are built from a supply of draws.  THE FRESHNESS ASSUMPTION is
+   the hypothesis draws_distinct: two different draws never yield the same key material.  That the real library draws
+   anew for every handler of every instance it builds - which is what makes this hypothesis a statement about the code
+   - is checked on every run by harness/drv_C04.py (chk_ifresh on key material read off really built instances). *)
+Definition draws_distinct (sup : nat -> nat) : Prop := forall d d', d <> d' -> sup d <> sup d'.
+Definition all_gen (s : ispec) : Prop :=
+  is_code s = HsOpaque KsGen /\ is_access s = HsOpaque KsGen /\ is_refresh s = HsOpaque KsGen /\ is_sm s = KsGen.
+Definition hs_given (s : hsrc) : Prop := (exists k, s = HsOpaque (KsGiven k)) \/ (exists k, s = HsJwt k).
+Definition all_given (s : ispec) : Prop :=
+  hs_given (is_code s) /\ hs_given (is_access s) /\ hs_given (is_refresh s) /\ exists k, is_sm s = KsGiven k.
+(* k is one of the symmetric keys of the instance: of a class handler or of the session manager *)
+Definition inst_key (i : inst) (k : nat) : Prop := In (Some k) (ikeys i).
+Definition kdraws (s : ksrc) : nat := match s with KsGen => 1 | KsGiven _ => 0 end.
+Definition hdraws (s : hsrc) : nat := match s with HsOpaque ks => kdraws ks | HsJwt _ => 0 end.
+Definition idraws (s : ispec) : nat := (hdraws (is_code s) + hdraws (is_access s) + hdraws (is_refresh s) + kdraws (is_sm s))%nat.
+Fixpoint inext (l : list istep) (n : nat) : nat :=
+  match l with
+  | [] => n
+  | IInst s :: r => inext r (n + idraws s)
+  | IOther m :: r => inext r (n + m)
+  end.
+
+Lemma handler_key_is_inst_key i c k : h_of (in_cfg i) c = HOpaque k -> inst_key i k.
+Proof.
+  unfold inst_key, ikeys. destruct c; cbn [h_of]; intros ->; cbn [hkey In]; auto.
+Qed.
+
+Section IFresh.
+  Variable sup : nat -> nat.
+
+  Lemma ktake_snd s n : snd (ktake sup s n) = (n + kdraws s)%nat.
+  Proof. destruct s; cbn; lia. Qed.
+  Lemma htake_snd s n : snd (htake sup s n) = (n + hdraws s)%nat.
+  Proof. destruct s as [ks|k]; cbn [htake snd hdraws]; [apply ktake_snd|lia]. Qed.
+  Lemma iconstruct_snd s n : snd (iconstruct sup s n) = (n + idraws s)%nat.
+  Proof.
+    unfold iconstruct, idraws.
+    pose proof (htake_snd (is_code s) n) as H1. destruct (htake sup (is_code s) n) as [hc n1]. cbn [snd] in H1.
+    pose proof (htake_snd (is_access s) n1) as H2. destruct (htake sup (is_access s) n1) as [ha n2]. cbn [snd] in H2.
+    pose proof (htake_snd (is_refresh s) n2) as H3. destruct (htake sup (is_refresh s) n2) as [hr n3]. cbn [snd] in H3.
+    pose proof (ktake_snd (is_sm s) n3) as H4. destruct (ktake sup (is_sm s) n3) as [km n4]. cbn [snd] in H4.
+    cbn [snd]. lia.
+  Qed.
+
+  (* an instance all of whose keys are generated: four consecutive draws *)
+  Lemma iconstruct_all_gen s n : all_gen s ->
+    iconstruct sup s n =
+    (mk_inst (mkHconf (HOpaque (sup n)) (HOpaque (sup (S n))) (HOpaque (sup (S (S n)))) (is_idt s)) (sup (S (S (S n)))),
+     S (S (S (S n)))).
+  Proof. destruct s as [c a r i m]. unfold all_gen. cbn. intros (-> & -> & -> & ->). reflexivity. Qed.
+
+  (* every key of such an instance is one of the draws made during its construction *)
+  Lemma iconstruct_keys s n k :
+    all_gen s -> inst_key (fst (iconstruct sup s n)) k -> exists d, (n <= d < snd (iconstruct sup s n))%nat /\ k = sup d.
+  Proof.
+    intros G. rewrite (iconstruct_all_gen s n G). unfold inst_key, ikeys. cbn.
+    intros [E|[E|[E|[E|[]]]]]; inversion E; subst.
+    - exists n. split; [lia|reflexivity].
+    - exists (S n). split; [lia|reflexivity].
+    - exists (S (S n)). split; [lia|reflexivity].
+    - exists (S (S (S n))). split; [lia|reflexivity].
+  Qed.
+
+  (* two instances with generated keys, the second built after the first (anything may draw in between): under the
+     freshness hypothesis they share no key - no class handler key, no session manager key *)
+  Lemma generated_disjoint s1 s2 n n2 :
+    draws_distinct sup -> all_gen s1 -> all_gen s2 -> (snd (iconstruct sup s1 n) <= n2)%nat ->
+    forall k, inst_key (fst (iconstruct sup s1 n)) k -> inst_key (fst (iconstruct sup s2 n2)) k -> False.
+  Proof.
+    intros Hf G1 G2 Hle k K1 K2.
+    apply (iconstruct_keys s1 n k G1) in K1 as (d1 & R1 & E1).
+    apply (iconstruct_keys s2 n2 k G2) in K2 as (d2 & R2 & E2).
+    apply (Hf d1 d2); [lia|congruence].
+  Qed.
+  (* ... and the class handlers of ONE such instance have a key each *)
+  Lemma generated_slots_distinct s n c c' k k' :
+    draws_distinct sup -> all_gen s -> c <> c' ->
+    h_of (in_cfg (fst (iconstruct sup s n))) c = HOpaque k -> h_of (in_cfg (fst (iconstruct sup s n))) c' = HOpaque k' -> k <> k'.
+  Proof.
+    intros Hf G N. rewrite (iconstruct_all_gen s n G). cbn [fst in_cfg].
+    destruct c, c'; try contradiction; cbn [h_of h_code h_access h_refresh]; intros E1 E2; inversion E1; inversion E2; subst;
+      apply Hf; lia.
+  Qed.
+
+  (* histories *)
+  Lemma ibuild_all_app l1 l2 n : ibuild_all sup (l1 ++ l2) n = ibuild_all sup l1 n ++ ibuild_all sup l2 (inext l1 n).
+  Proof.
+    revert n; induction l1 as [|[s|m] r IH]; intro n; cbn [app ibuild_all inext]; [reflexivity| |apply IH].
+    pose proof (iconstruct_snd s n) as Hs. destruct (iconstruct sup s n) as [h n']. cbn [snd] in Hs. subst n'.
+    now rewrite IH.
+  Qed.
+  Lemma ibuild_all_cons s r n :
+    ibuild_all sup (IInst s :: r) n = fst (iconstruct sup s n) :: ibuild_all sup r (n + idraws s).
+  Proof.
+    cbn [ibuild_all]. pose proof (iconstruct_snd s n) as Hs. destruct (iconstruct sup s n) as [h n']. cbn [snd fst] in *. now subst.
+  Qed.
+  Lemma inext_le l n : (n <= inext l n)%nat.
+  Proof. revert n; induction l as [|[s|m] r IH]; intro n; cbn [inext]; [lia| |]; (etransitivity; [|apply IH]); lia. Qed.
+
+  (* any two instances of one history whose keys are all generated share no key *)
+  Lemma ihistory_independent pre s1 mid s2 post n :
+    draws_distinct sup -> all_gen s1 -> all_gen s2 ->
+    let n1 := inext pre n in
+    let n2 := inext mid (n1 + idraws s1) in
+    let i1 := fst (iconstruct sup s1 n1) in
+    let i2 := fst (iconstruct sup s2 n2) in
+    ibuild_all sup (pre ++ IInst s1 :: mid ++ IInst s2 :: post) n
+      = ibuild_all sup pre n ++ i1 :: ibuild_all sup mid (n1 + idraws s1) ++ i2 :: ibuild_all sup post (n2 + idraws s2)
+    /\ forall k, inst_key i1 k -> inst_key i2 k -> False.
+  Proof.
+    intros Hf G1 G2 n1 n2 i1 i2. split.
+    - rewrite ibuild_all_app, ibuild_all_cons, ibuild_all_app, ibuild_all_cons. reflexivity.
+    - apply generated_disjoint; auto. rewrite iconstruct_snd. apply inext_le.
+  Qed.
+
+  (* positive control: instances built from the same given keys are the same instance, whenever they are built *)
+  Lemma ktake_given k n : ktake sup (KsGiven k) n = (k, n).
+  Proof. reflexivity. Qed.
+  Lemma htake_given s n n' : hs_given s -> htake sup s n = (fst (htake sup s n'), n).
+  Proof. intros [(k & ->)|(k & ->)]; reflexivity. Qed.
+  Lemma given_same s n n' : all_given s -> fst (iconstruct sup s n) = fst (iconstruct sup s n').
+  Proof.
+    destruct s as [c a r i m]. unfold all_given. cbn [is_code is_access is_refresh is_sm].
+    intros ([(k1 & ->)|(k1 & ->)] & [(k2 & ->)|(k2 & ->)] & [(k3 & ->)|(k3 & ->)] & (k4 & ->)); reflexivity.
+  Qed.
+End IFresh.
+
+(* a value encrypted under a key that is none of the instance's opaque handler keys is refused at EVERY slot - the
+   class slots, the bearer credential, the class-agnostic lookup -, whatever its plaintext *)
+Lemma foreign_key_handler cfg expired h k nonce m :
+  (forall c k', h_of cfg c = HOpaque k' -> k' <> k) -> handler_info cfg expired h (AEnc k nonce m) = TErr EUnknownToken.
+Proof.
+  intros H. unfold handler_info. destruct (h_of cfg h) as [k'|k'] eqn:E.
+  - unfold opaque_info. cbn [adec]. specialize (H h k' E). apply Nat.eqb_neq in H. now rewrite H.
+  - reflexivity.
+Qed.
+Theorem foreign_key_every_slot cfg expired s k nonce m :
+  (forall c k', h_of cfg c = HOpaque k' -> k' <> k) -> slot_resolve cfg expired s (AEnc k nonce m) = TErr EUnknownToken.
+Proof.
+  intros H. unfold slot_resolve. destruct (slot_handler s) as [h|]; [now apply foreign_key_handler|].
+  unfold generic_info. rewrite !foreign_key_handler by exact H. reflexivity.
+Qed.
+
+Lemma mint_opaque cfg c k nonce rnd sid exp :
+  h_of cfg c = HOpaque k -> mint cfg (MTok c) nonce rnd sid exp = AEnc k nonce (Atom (opaque_plain rnd (tk_name c) sid exp)).
+Proof. unfold mint. now intros ->. Qed.
+Lemma all_gen_opaque sup s n c : all_gen s -> exists k, h_of (in_cfg (fst (iconstruct sup s n))) c = HOpaque k.
+Proof. intros G. rewrite (iconstruct_all_gen sup s n G). destruct c; cbn; eauto. Qed.
+
+(* THE THEOREM OF THIS SECTION: independently built instances whose keys the library generated refuse each other's
+   tokens - codes, access tokens, refresh tokens - in every slot *)
+Theorem independent_instances_refuse sup s1 s2 n n2 :
+  draws_distinct sup -> all_gen s1 -> all_gen s2 -> (snd (iconstruct sup s1 n) <= n2)%nat ->
+  let A := in_cfg (fst (iconstruct sup s1 n)) in let B := in_cfg (fst (iconstruct sup s2 n2)) in
+  forall expired s c nonce rnd sid exp,
+    slot_resolve A expired s (mint B (MTok c) nonce rnd sid exp) = TErr EUnknownToken /\
+    slot_resolve B expired s (mint A (MTok c) nonce rnd sid exp) = TErr EUnknownToken.
+Proof.
+  intros Hf G1 G2 Hle A B expired s c nonce rnd sid exp.
+  pose proof (generated_disjoint sup s1 s2 n n2 Hf G1 G2 Hle) as D.
+  destruct (all_gen_opaque sup s1 n c G1) as (ka & Ea). destruct (all_gen_opaque sup s2 n2 c G2) as (kb & Eb).
+  split.
+  - unfold B. rewrite (mint_opaque _ c kb) by exact Eb. apply foreign_key_every_slot.
+    intros c' k' E ->. apply (D kb); eapply handler_key_is_inst_key; eauto.
+  - unfold A. rewrite (mint_opaque _ c ka) by exact Ea. apply foreign_key_every_slot.
+    intros c' k' E ->. apply (D ka); eapply handler_key_is_inst_key; eauto.
+Qed.
+
+(* ... and a genuine token of one of them, its plaintext encrypted anew under ANY key of the other (a class handler's
+   or the session manager's), is refused by the instance that minted it, in every slot *)
+Theorem reencrypted_refused sup s1 s2 n n2 :
+  draws_distinct sup -> all_gen s1 -> all_gen s2 -> (snd (iconstruct sup s1 n) <= n2)%nat ->
+  let IA := fst (iconstruct sup s1 n) in let IB := fst (iconstruct sup s2 n2) in
+  forall expired s c nonce nonce' rnd sid exp k,
+    (inst_key IB k -> slot_resolve (in_cfg IA) expired s (reencrypt k nonce' (mint (in_cfg IA) (MTok c) nonce rnd sid exp)) = TErr EUnknownToken) /\
+    (inst_key IA k -> slot_resolve (in_cfg IB) expired s (reencrypt k nonce' (mint (in_cfg IB) (MTok c) nonce rnd sid exp)) = TErr EUnknownToken).
+Proof.
+  intros Hf G1 G2 Hle IA IB expired s c nonce nonce' rnd sid exp k.
+  pose proof (generated_disjoint sup s1 s2 n n2 Hf G1 G2 Hle) as D.
+  destruct (all_gen_opaque sup s1 n c G1) as (ka & Ea). destruct (all_gen_opaque sup s2 n2 c G2) as (kb & Eb).
+  split; intros Hk.
+  - unfold IA. rewrite (mint_opaque _ c ka) by exact Ea. cbn [reencrypt]. apply foreign_key_every_slot.
+    intros c' k' E ->. apply (D k); [eapply handler_key_is_inst_key; eauto|exact Hk].
+  - unfold IB. rewrite (mint_opaque _ c kb) by exact Eb. cbn [reencrypt]. apply foreign_key_every_slot.
+    intros c' k' E ->. apply (D k); [exact Hk|eapply handler_key_is_inst_key; eauto].
+Qed.
+
+(* UNFORGEABLE AGAINST THE OTHER INSTANCE (from opaque_unforgeable): the operator of instance B knows every key of B.
+   With everything A published (K: the handler key k0 of A never in it, under k0 only minted tokens) AND all keys of B
+   in the adversary's hands, whatever can be built and A's handler accepts is a token A minted, unmodified. *)
+Theorem other_instance_cannot_forge sup s1 s2 n n2 (K : term -> Prop) (minted : pystr -> pystr -> Prop) :
+  draws_distinct sup -> all_gen s1 -> all_gen s2 ->
+  (snd (iconstruct sup s1 n) <= n2 \/ snd (iconstruct sup s2 n2) <= n)%nat ->
+  let A := fst (iconstruct sup s1 n) in let B := fst (iconstruct sup s2 n2) in
+  forall h k0, h_of (in_cfg A) h = HOpaque k0 ->
+  (forall t, K t -> ~ sub (Key k0) t) ->
+  (forall t0 nonce m, K t0 -> sub (AEnc k0 nonce m) t0 ->
+      exists rnd c sid exp, m = Atom (opaque_plain rnd c sid exp) /\ minted c sid) ->
+  forall expired t sid,
+    derivable (fun x => K x \/ exists k, inst_key B k /\ x = Key k) t ->
+    handler_info (in_cfg A) expired h t = TOk (Some sid) ->
+    exists c, class_ok h c = true /\ minted c sid /\ exists t0, K t0 /\ sub t t0.
+Proof.
+  intros Hf G1 G2 Hord A B h k0 Eh Hsec Hpub expired t sid Hd Hi.
+  assert (D : forall k, inst_key A k -> inst_key B k -> False).
+  { destruct Hord as [Hle|Hle].
+    - exact (generated_disjoint sup s1 s2 n n2 Hf G1 G2 Hle).
+    - intros k Ka Kb. exact (generated_disjoint sup s2 s1 n2 n Hf G2 G1 Hle k Kb Ka). }
+  assert (Ka : inst_key A k0) by (eapply handler_key_is_inst_key; eauto).
+  unfold handler_info in Hi. rewrite Eh in Hi.
+  set (K' := fun x => K x \/ exists k, inst_key B k /\ x = Key k) in *.
+  assert (Hsec' : forall x, K' x -> ~ sub (Key k0) x).
+  { intros x [Hx|(k & Kb & ->)]; [now apply Hsec|]. intros Hs. inversion Hs; subst. eapply D; eauto. }
+  assert (Hpub' : forall t0 nonce m, K' t0 -> sub (AEnc k0 nonce m) t0 ->
+             exists rnd c sid exp, m = Atom (opaque_plain rnd c sid exp) /\ minted c sid).
+  { intros t0 nonce m [Hx|(k & Kb & ->)] Hs; [now apply (Hpub t0 nonce m)|]. inversion Hs. }
+  destruct (opaque_unforgeable K' k0 Hsec' minted Hpub' h t sid Hd Hi) as (c & Hc & Hm & t0 & [Ht0|(k & Kb & ->)] & Hs).
+  - exists c. repeat split; auto. exists t0. auto.
+  - exfalso. inversion Hs; subst. cbn in Hi. discriminate.
+Qed.
+
+(* positive control: instances the deployment gave the same keys accept each other's tokens *)
+Theorem given_instances_accept sup s n n' expired c nonce rnd sid exp :
+  all_given s -> expired exp = false ->
+  handler_info (in_cfg (fst (iconstruct sup s n'))) expired c (mint (in_cfg (fst (iconstruct sup s n))) (MTok c) nonce rnd sid exp) = TOk (Some sid).
+Proof. intros G E. rewrite (given_same sup s n n' G). now apply handler_info_own. Qed.
+
+(* non-vacuity: a history with two all-generated instances, something else drawing in between, and two instances
+   given key 5 everywhere; the supply of distinct draws sup0; and the NECESSITY of the hypothesis: under a supply
+   that hands out the same key material again (a key made up once per process instead of once per handler) the
+   second instance resolves the first one's access token *)
+Definition sGen : ispec := mk_ispec (HsOpaque KsGen) (HsOpaque KsGen) (HsOpaque KsGen) 50 KsGen.
+Definition sG5 : ispec := mk_ispec (HsOpaque (KsGiven 5)) (HsOpaque (KsGiven 5)) (HsOpaque (KsGiven 5)) 50 (KsGiven 6).
+Lemma sup0_distinct : draws_distinct sup0.
+Proof. intros d d' N. unfold sup0. lia. Qed.
+Definition stale (_ : nat) : nat := 7%nat.
+Example key_sources_nonvacuous :
+  draws_distinct sup0 /\ all_gen sGen /\ all_given sG5 /\
+  map ikeys (ibuild_all sup0 [IInst sGen; IOther 3; IInst sGen; IInst sG5; IInst sG5] 0)
+    = [[Some 1000; Some 1001; Some 1002; Some 1003]; [Some 1007; Some 1008; Some 1009; Some 1010];
+       [Some 5; Some 5; Some 5; Some 6]; [Some 5; Some 5; Some 5; Some 6]]%nat /\
+  chk_icross ([IInst sGen; IOther 3; IInst sGen], 0, 1, 1, None, 2, false, false)%nat = true /\
+  chk_icross ([IInst sGen; IOther 3; IInst sGen], 0, 0, 1, Some (1, 1), 2, true, false)%nat = true /\
+  chk_icross ([IInst sGen; IOther 3; IInst sGen], 0, 0, 1, None, 2, true, true)%nat = true /\
+  chk_icross ([IInst sG5; IInst sG5], 0, 1, 1, None, 2, false, true)%nat = true /\
+  ~ draws_distinct stale /\
+  let A := in_cfg (fst (iconstruct stale sGen 0)) in let B := in_cfg (fst (iconstruct stale sGen 4)) in
+  slot_resolve B (fun _ => false) SUserinfo (mint A (MTok KAccess) (PS "n") (PS "r") (PS "sid") (PS "99")) = TOk (Some (PS "sid")).
+Proof.
+  split; [exact sup0_distinct|]. split; [repeat split|].
+  split; [unfold all_given, hs_given; cbn; repeat (split; [left; eexists; reflexivity|]); eexists; reflexivity|].
+  split; [vm_compute; reflexivity|]. split; [vm_compute; reflexivity|]. split; [vm_compute; reflexivity|].
+  split; [vm_compute; reflexivity|]. split; [vm_compute; reflexivity|].
+  split; [intro H; exact (H 0 1 ltac:(discriminate) eq_refl)%nat|]. vm_compute. reflexivity.
+Qed.
+
+(* the grouped checker of the driver is the pointwise one at all eight places *)
+Lemma igroup_model_pointwise steps i j m re obs :
+  igroup_model (steps, i, j, m, re, obs) = map (fun p => icross_model (steps, i, j, m, re, fst p, snd p, false)) igroup_slots.
+Proof. reflexivity. Qed.
